@@ -1,5 +1,6 @@
 """Second-line rules shared by several properties: small helpers on the main path whose tables/definitions the
 properties silently depend on (value constructors, default options, buffering predicates, lexer character classes)."""
+import itertools
 from hirq import *  # noqa: F401,F403
 from core import Abort
 
@@ -19,6 +20,66 @@ def struct_fields_of(hir, name):
         if x["k"] == "Struct" and short(x.get("res"), 1) == name:
             return {f["name"]: f["e"] for f in x["fields"]}, x
     return None, None
+
+
+def variant_coercion_table(ctx):
+    """values of Variant::to_int / to_float / to_bool read off their source by the finite interpreter on representative
+    variants (own slot filled; other slot filled; plain number text; size-literal text; garbage text).  parse_filesize and
+    str_to_bool are mocked by their contract (C14-R1 / C02-R6 decide them)."""
+    import interp
+
+    def call(node, recv, args, it, env):
+        callee = str(node.get("callee", ""))
+        m = node.get("m")
+        if m == "parse" and isinstance(recv, str):
+            ty = str(node.get("ty", ""))
+            try:
+                if "f64" in ty or "f32" in ty:
+                    return (interp.V("Result::Ok", [float(recv)]),)
+                if recv.isdigit() or ("usize" not in ty and "u64" not in ty and recv[:1] == "-" and recv[1:].isdigit()):
+                    return (interp.V("Result::Ok", [int(recv)]),)
+            except ValueError:
+                pass
+            return (interp.V("Result::Err", [interp.Opaque("parse error")]),)
+        if callee.endswith("parse_filesize") and args and isinstance(args[0], str):
+            return (interp.some(2000) if args[0] == "2k" else interp.NONE,)
+        if callee.endswith("str_to_bool") and args and isinstance(args[0], str):
+            return ({"true": interp.some(True), "false": interp.some(False)}.get(args[0], interp.NONE),)
+        if callee.endswith("error_exit"):
+            raise interp._Return("error_exit")
+        if m == "is_empty" and isinstance(recv, str):
+            return (recv == "",)
+        return None
+
+    def variant(i=None, f=None, b=None, s=""):
+        opt = lambda x: interp.NONE if x is None else interp.some(x)
+        return {"int_value": opt(i), "float_value": opt(f), "bool_value": opt(b), "string_value": s, "dt_from": interp.NONE, "dt_to": interp.NONE,
+                "value_type": interp.Opaque("type")}
+    cases = {
+        "to_int": [(variant(i=2 ** 60 + 1, f=float(2 ** 60 + 1), s=str(2 ** 60 + 1)), 2 ** 60 + 1), (variant(i=7, f=7.0, s="7"), 7), (variant(f=2.0, s="2"), 2), (variant(s="42"), 42), (variant(s="2k"), 2000), (variant(s="abc"), 0)],
+        "to_float": [(variant(f=1.5, s="1.5"), 1.5), (variant(i=3, s="3"), 3.0), (variant(s="2.5"), 2.5), (variant(s="2k"), 2000.0), (variant(s="abc"), 0.0)],
+        "to_bool": [(variant(b=True, s="true"), True), (variant(b=False, s="false"), False), (variant(s="true"), True), (variant(s="false"), False),
+                    (variant(i=1), True), (variant(i=0), False), (variant(), False)],
+    }
+    out = {}
+    for fn, cs in cases.items():
+        name = "function::Variant::" + fn
+        h = ctx.anchor_hir(name)
+        pid = ctx.prog.fns[name]["params"][0]["id"]
+        res = []
+        for selfv, want in cs:
+            try:
+                got = interp.Interp(call=call).run(h, {pid: selfv})
+            except interp.Undecided as e:
+                got = "undecided: %s" % e
+            res.append((selfv, want, got))
+        out[fn] = res
+    return out
+
+
+def interp_none():
+    import interp
+    return interp.NONE
 
 
 def variant_constructors(ctx):
@@ -58,7 +119,9 @@ def variant_constructors(ctx):
         fs, node = struct_fields_of(h, "Variant")
         tm = [t for t, _ in fmt_templates(fs["string_value"])] if fs and "string_value" in fs else None
         n += 1
-        ok = tm == tmpl and "value" in render(fs["string_value"])
+        sv = peel(fs["string_value"], methods=False) if fs and "string_value" in fs else None
+        plain_call = sv is not None and sv["k"] == "MCall" and sv["m"] == "to_string" and render(peel(sv["recv"])) == "value"
+        ok = (tm == tmpl and "value" in render(fs["string_value"])) or plain_call
         ctx.obligation(ok)
         if not ok:
             ctx.violation("variant/%s/text" % fn, ctx.where("function::Variant::" + fn), "Variant::%s renders its text as %s" % (fn, tm))
@@ -78,27 +141,19 @@ def variant_constructors(ctx):
     ctx.obligation(ok)
     if not ok:
         ctx.violation("variant/from_bool/text", ctx.where("function::Variant::from_bool"), "Variant::from_bool must render true/false; found %s" % tbl)
-    # coercions: to_int reads int_value, then float_value, then parses; to_bool reads bool_value first
-    ti = ctx.anchor_hir("function::Variant::to_int")
-    ms = [m for m in find_matches(ti, min_arms=2) if render(peel(m["scrut"])) == "self.int_value"]
-    ok = bool(ms) and render(peel_result([a for a in match_arms(ms[0]) if any("Some" in key_name(k) for k in a["keys"])][0]["body"])) == "i"
-    n += 1
-    ctx.obligation(ok)
-    if not ok:
-        ctx.violation("variant/to_int/own-slot", ctx.where("function::Variant::to_int"), "Variant::to_int must return its integer slot when it has one")
-    tf = ctx.anchor_hir("function::Variant::to_float")
-    ok = any(x["k"] == "If" and "self.float_value.is_some()" in render(x["c"]) and "self.float_value.unwrap()" in render(x["t"]) for x in walk_exprs(tf))
-    n += 1
-    ctx.obligation(ok)
-    if not ok:
-        ctx.violation("variant/to_float/own-slot", ctx.where("function::Variant::to_float"), "Variant::to_float must return its float slot when it has one")
-    tb = ctx.anchor_hir("function::Variant::to_bool")
-    top = peel(tb["expr"], methods=False) if "expr" in tb else None
-    ok = top is not None and top["k"] == "If" and "self.bool_value" in render(top["c"]) and render(peel_result(top["t"])) == "value"
-    n += 1
-    ctx.obligation(ok)
-    if not ok:
-        ctx.violation("variant/to_bool/own-slot", ctx.where("function::Variant::to_bool"), "Variant::to_bool must return its boolean slot when it has one")
+    # coercions: own slot first, then the other slot, then the text (number, size literal), else zero / false
+    tbl = variant_coercion_table(ctx)
+    for fn, res in tbl.items():
+        for selfv, want_v, got in res:
+            n += 1
+            ok = got == want_v and type(got) == type(want_v)
+            ctx.obligation(ok)
+            if not ok:
+                desc = {k: v for k, v in selfv.items() if k in ("int_value", "float_value", "bool_value", "string_value") and v != interp_none()}
+                slot = "own-slot" if (fn == "to_int" and selfv["int_value"] != interp_none()) or (fn == "to_float" and selfv["float_value"] != interp_none()) or \
+                    (fn == "to_bool" and selfv["bool_value"] != interp_none()) else "fallback"
+                ctx.violation("variant/%s/%s" % (fn, slot), ctx.where("function::Variant::" + fn),
+                              "Variant::%s of a value with %s yields %r, expected %r" % (fn, desc, got, want_v))
     # get_type returns the stored type; to_string the stored text
     gt = ctx.anchor_hir("function::Variant::get_type")
     ok = render(peel_result(gt)) in ("self.value_type", "&self.value_type")
@@ -246,61 +301,41 @@ def colorize_gate(ctx):
 def lexer_classes(ctx):
     """the lexer's operator / arithmetic character classes and their context gates"""
     import itertools
-    oh = ctx.anchor_hir("lexer::Lexer::is_op_char")
-    chars = sorted(x["v"] for x in walk(oh) if x["k"] == "PLit" and x["lk"] == "char")
-    ok = chars == sorted("=!<>~")
-    ctx.obligation(ok)
-    if not ok:
-        ctx.violation("lexer/op-chars", ctx.where("lexer::Lexer::is_op_char"), "operator characters are %s, expected = ! < > ~" % chars)
-    early = [x for x in walk_exprs(oh) if x["k"] == "If" and any(y["k"] == "Ret" and render(y["e"]) == "false" for y in walk_exprs(x["t"]))]
-    ok = len(early) == 1 and sorted(render(c) for c in conjuncts(early[0]["c"])) == ["!self.after_where", "!self.before_from"]
-    ctx.obligation(ok)
-    if not ok:
-        ctx.violation("lexer/op-context", ctx.where("lexer::Lexer::is_op_char"), "operator characters are recognised exactly in the select list and after WHERE")
-    ah = ctx.anchor_hir("lexer::Lexer::is_arithmetic_op_char")
-    ms = find_matches(ah, min_arms=2)
-    tbl = {}
-    if ms:
-        for a in match_arms(ms[0]):
-            for k in a["keys"]:
-                tbl[key_name(k)] = a["body"]
+    import interp
     flags = ["before_from", "after_where", "after_open", "after_operator"]
-
-    def leaf(n):
-        n = peel(n, methods=False)
-        if n["k"] == "Field" and render(n["e"]) == "self" and n["name"] in flags:
-            return n["name"]
-        return None
-
-    ev = Evaluator(leaf)
-    spec = {"+": lambda f: f["before_from"] or f["after_where"], "-": lambda f: f["before_from"] or f["after_where"]}
+    chars = [chr(i) for i in range(33, 127)] + [" ", "é"]
+    arith_spec = {"+": lambda f: f["before_from"] or f["after_where"], "-": lambda f: f["before_from"] or f["after_where"]}
     for c in "*/%":
-        spec[c] = lambda f: (f["before_from"] or f["after_where"]) and not f["after_open"] and not f["after_operator"]
+        arith_spec[c] = lambda f: (f["before_from"] or f["after_where"]) and not f["after_open"] and not f["after_operator"]
     n = 0
-    for c, sp in spec.items():
-        body = tbl.get(c)
-        if body is None:
-            ctx.violation("lexer/arith-chars/%s" % c, ctx.where("lexer::Lexer::is_arithmetic_op_char"), "`%s` is not an arithmetic character" % c)
-            continue
+    for fname, spec in (("lexer::Lexer::is_op_char", lambda c, f: c in "=!<>~" and (f["before_from"] or f["after_where"])),
+                        ("lexer::Lexer::is_arithmetic_op_char", lambda c, f: c in arith_spec and bool(arith_spec[c](f)))):
+        h = ctx.anchor_hir(fname)
+        ps = ctx.prog.fns[fname]["params"]
+        bad = None
         for vals in itertools.product([False, True], repeat=4):
-            env = dict(zip(flags, vals))
-            try:
-                got = ev.boolean(body, env)
-            except NotComparison as e:
-                ctx.violation("lexer/arith-context/%s/shape" % c, ctx.where("lexer::Lexer::is_arithmetic_op_char"), "cannot evaluate the context of `%s`: %s" % (c, e))
+            fl = dict(zip(flags, vals))
+            for c in chars:
+                try:
+                    got = interp.Interp().run(h, {ps[0]["id"]: dict(fl, possible_search_root=False), ps[1]["id"]: c})
+                except interp.Undecided as e:
+                    bad = ("unreadable", "cannot evaluate %s: %s" % (short(fname, 1), e))
+                    break
+                n += 1
+                want = bool(spec(c, fl))
+                if got != want:
+                    bad = ("%s/%s" % ("context" if c in "=!<>~+-*/%" else "chars", c),
+                           "`%s` is %s character when %s" % (c, ("wrongly an %s" if got else "not an %s") % ("operator" if "is_op_char" in fname else "arithmetic"),
+                                                            {k: v for k, v in fl.items() if v} or "no context flag is set"))
+                    break
+            if bad:
                 break
-            n += 1
-            ok = got == sp(env)
-            ctx.obligation(ok)
-            if not ok:
-                ctx.violation("lexer/arith-context/%s" % c, ctx.where("lexer::Lexer::is_arithmetic_op_char", body),
-                              "`%s` is %s an arithmetic operator when %s" % (c, "wrongly" if got else "not", {k: v for k, v in env.items() if v}))
-                break
-    d = tbl.get("_")
-    ok = d is not None and render(peel_result(d)) == "false" and len([k for k in tbl if k != "_"]) == 5
-    ctx.obligation(ok)
-    if not ok:
-        ctx.violation("lexer/arith-chars/other", ctx.where("lexer::Lexer::is_arithmetic_op_char"), "only + - * / % are arithmetic characters; found %s" % sorted(tbl))
+        ctx.obligation(bad is None)
+        if bad:
+            key = "lexer/op-%s" % bad[0] if "is_op_char" in fname else "lexer/arith-%s" % bad[0]
+            ctx.violation(key, ctx.where(fname), bad[1])
+    spec = arith_spec
+    nh = None
     # context flag updates
     nh = ctx.anchor_hir("lexer::Lexer::next_lexem")
     asg = {}
@@ -363,7 +398,7 @@ def lexer_classes(ctx):
     ctx.obligation(ok)
     if not ok:
         ctx.violation("lexer/flag/clauses", ctx.where("lexer::Lexer::next_lexem"), "`from` must end the select list and any WHERE context, `where` must start the WHERE context; found %s" % eff)
-    ctx.covered("lexer character classes and context flags (arithmetic context on all 16 flag assignments x 5 characters)", n + 6,
+    ctx.covered("lexer character classes (is_op_char, is_arithmetic_op_char) evaluated on 96 characters x 16 flag valuations; context flag updates", n + 6,
                 distinct_keys=list(spec) + ["op-chars", "op-context", "flags"], exhaustive=True)
 
 
